@@ -238,6 +238,35 @@ class CFG:
     def reachable(self, b: int, kinds=ALL) -> bool:
         return b in self.reach([self.entry], kinds=kinds)
 
+    def is_trivial(self, i: int) -> bool:
+        n = self.nodes[i]
+        if n.kind == "stmt" and isinstance(n.ast, ast.Pass):
+            return True
+        if n.kind == "stmt" and isinstance(n.ast, ast.Expr) and isinstance(n.ast.value, ast.Constant):
+            return True
+        # pure logging statements / guards do not change what a rule looks for
+        if n.kind == "stmt" and isinstance(n.ast, ast.Expr) and isinstance(n.ast.value, ast.Call):
+            from .model import unparse as _u
+
+            if _u(n.ast.value.func).startswith("logger."):
+                return True
+        return False
+
+    def real_succ(self, i: int, kind: str | None = None) -> list[int]:
+        """Successors of node i over edges of `kind` (None = normal edges), skipping `pass`/docstring/logging statements."""
+        out, seen = [], set()
+        todo = [b for b, k in self.succ[i] if (k == kind if kind else k in NORMAL)]
+        while todo:
+            b = todo.pop()
+            if b in seen:
+                continue
+            seen.add(b)
+            if self.is_trivial(b):
+                todo.extend(x for x, k in self.succ[b] if k in NORMAL)
+            else:
+                out.append(b)
+        return out
+
     def describe(self, path: Iterable[int]) -> list[str]:
         out = []
         for i in path:
